@@ -177,6 +177,17 @@ def gen_case(seed, tier, opts=None):
             sp['setgid'] = g.pick(['100', 'users'])
         if g.chance(0.3):
             sp['maxsimul'] = g.pick(['1', '2', '7', '31', '62'])
+        if g.chance(0.07):
+            # one event whose written form is larger than the serialiser's 4 KiB write buffer, every line below 1 KiB
+            n = lambda: g.rint(600, 950)
+            sp['cmd'] = '/bin/echo ' + 'a' * n()
+            sp['desc'] = 'b' * n()
+            sp['location'] = '/tmp/' + 'c' * n()
+            sp['ifile'] = '/tmp/' + 'd' * n()
+            sp['ofile'] = '/tmp/' + 'e' * n()
+            sp['efile'] = '/tmp/' + 'f' * n()
+            sp['shell'] = '/bin/' + 'g' * n()
+            use['bigger_than_write_buffer'] = 1
         sp['extra_lines'] = lines
         specs.append(sp)
         evs.append(ical.event_text(sp))
@@ -430,6 +441,8 @@ def run_seed(seed, tier, opts=None):
     if loose:
         probes['known_finding_class_checked_loosely'] = len(loose)
     for u in uses:
+        if u.get('bigger_than_write_buffer'):
+            probes['event_bigger_than_write_buffer'] = 1
         for key in ('bysetpos', 'byminute', 'bysecond', 'byhour', 'shift', 'scale', 'rdate', 'exdate', 'exrule', 'until', 'duration', 'dtend', 'wkst'):
             if u.get(key):
                 probes['uses_' + key] = 1
